@@ -68,6 +68,17 @@ def o_pairwise_matrix(ctx):
             ctx.claim('symmetric', And(eq(v[0], w[0]), eq(v[1], w[1])))
             e = expected.get((a, b), dflt)
             ctx.claim('entry-or-default', And(eq(v[0], e[0]), eq(v[1], e[1])))
+    # a default declared again later (an override read after the first look-ups) applies to every unspecified pair, in both
+    # orders -- whatever was looked up before
+    if ctx.choice('default_redeclared_after_lookups', [False, True]):
+        n0, n1 = ctx.real('new_default0', 0, 10), ctx.real('new_default1', 0, 10)
+        m.add(('default', n0, n1))
+        for a in KEYS + ['Z']:
+            for b in KEYS + ['Z']:
+                v, w = m.get_value(a, b), m.get_value(b, a)
+                ctx.claim('symmetric(after redeclaration)', And(eq(v[0], w[0]), eq(v[1], w[1])))
+                e = expected.get((a, b), (n0, n1))
+                ctx.claim('entry-or-new-default', And(eq(v[0], e[0]), eq(v[1], e[1])))
 
 
 def o_squared(ctx):
